@@ -31,6 +31,7 @@ func runC10(c *Ctx) {
 	renderClosuresKeepNoState(c, "C10.R18", ".", "runtime")
 	for _, rel := range []string{".", "runtime"} {
 		errorPropagation(c, c.pkg(rel), "C10.R5")
+		stickyErrorsReachReturn(c, c.pkg(rel), "C10.R5")
 	}
 	c.floor("C10.R5", 25)
 	poolDiscipline(c, "C10.R6")
@@ -172,6 +173,17 @@ func errorPropagation(c *Ctx, p *packages.Package, rule string) {
 				}
 				id, isId := s.Lhs[errIdx].(*ast.Ident)
 				if !isId {
+					// stored into a sticky error cell of the function (ew.err = f(w)): decided by stickyErrorsReachReturn
+					if se, ok := ast.Unparen(s.Lhs[errIdx]).(*ast.SelectorExpr); ok {
+						if xid, ok := ast.Unparen(se.X).(*ast.Ident); ok {
+							if v, ok := info.ObjectOf(xid).(*types.Var); ok && !v.IsField() {
+								if f, _ := stickyCell(p, v.Type()); f != nil && info.ObjectOf(se.Sel) == types.Object(f) {
+									c.ok(rule, key, pos, "error stored in the sticky error cell "+xid.Name+" (its way to the return is decided separately)")
+									return
+								}
+							}
+						}
+					}
 					c.undec(rule, key, pos, "error assigned to a non-identifier")
 					return
 				}
@@ -1209,4 +1221,281 @@ func flushAlwaysReachesBufio(c *Ctx, rule string) {
 	}
 	c.check(bad == "" && len(den.paths) > 0, rule, key+"|always-flushes-bufio", c.pos(fd.Pos()), fmt.Sprintf("%d paths, each through bufio.(*Writer).Flush", len(den.paths)),
 		"(*Buffer).Flush: "+bad+": the write error the bufio writer remembered is never reported, so a render whose last large write failed returns nil")
+}
+
+// stickyCell: t is (a pointer to) an unexported struct type of the package that keeps the first error of a series of
+// writes — it has exactly one error field E, at least one method assigns r.E, and every method that does so starts with
+// `if r.E != nil { return }`: once E is set, nothing is written and E is not overwritten. Returns the field and the
+// methods that store into it.
+func stickyCell(p *packages.Package, t types.Type) (*types.Var, map[types.Object]bool) {
+	if t == nil {
+		return nil, nil
+	}
+	if pt, ok := t.(*types.Pointer); ok {
+		t = pt.Elem()
+	}
+	nt, ok := t.(*types.Named)
+	if !ok || nt.Obj().Pkg() != p.Types || nt.Obj().Exported() {
+		return nil, nil
+	}
+	st, ok := nt.Underlying().(*types.Struct)
+	if !ok {
+		return nil, nil
+	}
+	var field *types.Var
+	for i := 0; i < st.NumFields(); i++ {
+		if isErrorType(st.Field(i).Type()) {
+			if field != nil {
+				return nil, nil
+			}
+			field = st.Field(i)
+		}
+	}
+	if field == nil {
+		return nil, nil
+	}
+	info := p.TypesInfo
+	stores := map[types.Object]bool{}
+	for _, fd := range allFuncDecls(p) {
+		if fd.Recv == nil || fd.Body == nil || len(fd.Recv.List) != 1 || len(fd.Recv.List[0].Names) != 1 || recvTypeName(fd.Recv.List[0].Type) != nt.Obj().Name() {
+			continue
+		}
+		robj := info.Defs[fd.Recv.List[0].Names[0]]
+		isE := func(e ast.Expr) bool {
+			se, ok := ast.Unparen(e).(*ast.SelectorExpr)
+			if !ok || info.ObjectOf(se.Sel) != types.Object(field) {
+				return false
+			}
+			id, ok := ast.Unparen(se.X).(*ast.Ident)
+			return ok && info.ObjectOf(id) == robj
+		}
+		assigns := false
+		ast.Inspect(fd.Body, func(n ast.Node) bool {
+			if as, ok := n.(*ast.AssignStmt); ok {
+				for _, l := range as.Lhs {
+					if isE(l) {
+						assigns = true
+					}
+				}
+			}
+			return true
+		})
+		if !assigns {
+			continue
+		}
+		// a store without the guard (or through a value receiver, which stores into a copy): not a sticky cell
+		if _, ptr := fd.Recv.List[0].Type.(*ast.StarExpr); !ptr {
+			return nil, nil
+		}
+		guarded := false
+		if len(fd.Body.List) > 0 {
+			if is, ok := fd.Body.List[0].(*ast.IfStmt); ok && is.Init == nil && is.Else == nil && len(is.Body.List) == 1 {
+				if be, ok := ast.Unparen(is.Cond).(*ast.BinaryExpr); ok && be.Op == token.NEQ && isE(be.X) && types.ExprString(be.Y) == "nil" {
+					if _, isRet := is.Body.List[0].(*ast.ReturnStmt); isRet {
+						guarded = true
+					}
+				}
+			}
+		}
+		if !guarded {
+			return nil, nil
+		}
+		stores[info.Defs[fd.Name]] = true
+	}
+	if len(stores) == 0 {
+		return nil, nil
+	}
+	return field, stores
+}
+
+// stickyErrorsReachReturn: C10.R5 for writes made through a sticky error cell (`ew := errWriter{w: w}; ew.write(a);
+// ew.write(b); return ew.err`). The write methods return nothing, so the per-call rule has nothing to look at; what
+// must hold instead is that every path of the function that made a write through the cell returns the cell's error —
+// `return X.E` (or a return after `X.E` was tested and found nil, with no write in between).
+func stickyErrorsReachReturn(c *Ctx, p *packages.Package, rule string) {
+	info := p.TypesInfo
+	for _, fd := range allFuncDecls(p) {
+		if fd.Body == nil || fd.Type.Results == nil {
+			continue
+		}
+		returnsErr := false
+		for _, r := range fd.Type.Results.List {
+			if isErrorType(info.TypeOf(r.Type)) {
+				returnsErr = true
+			}
+		}
+		// the sticky locals of the function
+		type cell struct {
+			field  *types.Var
+			stores map[types.Object]bool
+		}
+		cells := map[types.Object]cell{}
+		ast.Inspect(fd.Body, func(n ast.Node) bool {
+			if id, ok := n.(*ast.Ident); ok {
+				if v, ok := info.Defs[id].(*types.Var); ok && !v.IsField() {
+					if f, st := stickyCell(p, v.Type()); f != nil {
+						cells[v] = cell{f, st}
+					}
+				}
+			}
+			return true
+		})
+		if len(cells) == 0 {
+			continue
+		}
+		for x, cl := range cells {
+			key := fmt.Sprintf("%s|sticky:%s.%s|reaches-return", funcKey(p, fd), x.Name(), cl.field.Name())
+			if !returnsErr {
+				c.viol(rule, key, c.pos(x.Pos()), fmt.Sprintf("%s collects write errors in %s.%s but has no error result to report them through", fd.Name.Name, x.Name(), cl.field.Name()))
+				continue
+			}
+			isXE := func(e ast.Expr) bool {
+				se, ok := ast.Unparen(e).(*ast.SelectorExpr)
+				if !ok || info.ObjectOf(se.Sel) != types.Object(cl.field) {
+					return false
+				}
+				id, ok := ast.Unparen(se.X).(*ast.Ident)
+				return ok && info.ObjectOf(id) == x
+			}
+			// a statement that stores into the cell: a call of a storing method on X, or an assignment to X.E
+			storesIn := func(st ast.Stmt) bool {
+				found := false
+				ast.Inspect(st, func(n ast.Node) bool {
+					switch v := n.(type) {
+					case *ast.FuncLit:
+						return false
+					case *ast.CallExpr:
+						if se, ok := ast.Unparen(v.Fun).(*ast.SelectorExpr); ok {
+							if id, ok := ast.Unparen(se.X).(*ast.Ident); ok && info.ObjectOf(id) == x && cl.stores[info.ObjectOf(se.Sel)] {
+								found = true
+							}
+						}
+					case *ast.AssignStmt:
+						for _, l := range v.Lhs {
+							if isXE(l) {
+								found = true
+							}
+						}
+					}
+					return true
+				})
+				return found
+			}
+			// the cell must stay in the function: X is used only as the receiver of its methods, in X.E, and in its declaration
+			escapes := ""
+			var stack []ast.Node
+			ast.Inspect(fd.Body, func(n ast.Node) bool {
+				if n == nil {
+					stack = stack[:len(stack)-1]
+					return true
+				}
+				stack = append(stack, n)
+				id, ok := n.(*ast.Ident)
+				if !ok || info.Uses[id] != types.Object(x) || len(stack) < 2 {
+					return true
+				}
+				if se, ok := stack[len(stack)-2].(*ast.SelectorExpr); ok && se.X == ast.Expr(id) {
+					return true
+				}
+				escapes = c.pos(id.Pos())
+				return true
+			})
+			if escapes != "" {
+				c.undec(rule, key, c.pos(x.Pos()), fmt.Sprintf("the error cell %s is used as a value at %s (copied or handed on): not followed", x.Name(), escapes))
+				continue
+			}
+			// over the flow graph: a return that does not hand back X.E must not be reachable from a write through the
+			// cell — unless a test `if X.E != nil { return … }` lies between them (it dominates the return, the write
+			// reaches it, and no further write lies between the test and the return)
+			g := newFnCFG(fd.Body, info)
+			var stores []ast.Stmt
+			var tests []*ast.IfStmt
+			var rets []*ast.ReturnStmt
+			ast.Inspect(fd.Body, func(n ast.Node) bool {
+				switch v := n.(type) {
+				case *ast.FuncLit:
+					return false
+				case *ast.ExprStmt:
+					if storesIn(v) {
+						stores = append(stores, v)
+					}
+				case *ast.AssignStmt:
+					if storesIn(v) {
+						stores = append(stores, v)
+					}
+				case *ast.IfStmt:
+					if be, ok := ast.Unparen(v.Cond).(*ast.BinaryExpr); ok && be.Op == token.NEQ && types.ExprString(be.Y) == "nil" && isXE(be.X) && len(v.Body.List) > 0 {
+						if _, isRet := v.Body.List[len(v.Body.List)-1].(*ast.ReturnStmt); isRet {
+							tests = append(tests, v)
+						}
+					}
+				case *ast.ReturnStmt:
+					rets = append(rets, v)
+				}
+				return true
+			})
+			bad := ""
+			npaths := 0
+			for _, st := range stores {
+				as, isAs := st.(*ast.AssignStmt)
+				if !isAs {
+					continue
+				}
+				direct := false
+				for _, l := range as.Lhs {
+					if isXE(l) {
+						direct = true
+					}
+				}
+				if !direct {
+					continue
+				}
+				for _, s0 := range stores {
+					if s0 != st && g.reachable(s0, st) && bad == "" {
+						bad = fmt.Sprintf("%s.%s is assigned at %s after a write through the cell at %s: the earlier write's error is overwritten", x.Name(), cl.field.Name(), c.pos(st.Pos()), c.pos(s0.Pos()))
+					}
+				}
+			}
+			for _, r := range rets {
+				returnsXE := false
+				for _, res := range r.Results {
+					if isXE(res) {
+						returnsXE = true
+					}
+				}
+				for _, s0 := range stores {
+					if !g.reachable(s0, r) {
+						continue
+					}
+					npaths++
+					if returnsXE {
+						continue
+					}
+					covered := false
+					for _, t := range tests {
+						if t.Body.Pos() <= r.Pos() && r.End() <= t.Body.End() {
+							continue
+						}
+						if !g.reachable(s0, t.Cond) || !g.dominates(t.Cond, r) {
+							continue
+						}
+						again := false
+						for _, s2 := range stores {
+							if g.reachable(t.Cond, s2) && g.reachable(s2, r) {
+								again = true
+							}
+						}
+						if !again {
+							covered = true
+						}
+					}
+					if !covered && bad == "" {
+						bad = fmt.Sprintf("the return at %s can be reached after the write through %s at %s, does not return %s.%s, and no test of it lies between them", c.pos(r.Pos()), x.Name(), c.pos(s0.Pos()), x.Name(), cl.field.Name())
+					}
+				}
+			}
+			c.check(bad == "", rule, key, c.pos(x.Pos()), fmt.Sprintf("every return reachable from a write through the cell hands back its error, or follows a test of it (%d write→return pairs)", npaths),
+				fmt.Sprintf("%s: %s — a failed write would go unnoticed and the render would report success", fd.Name.Name, bad))
+		}
+	}
 }
